@@ -7,7 +7,7 @@ src="$1"; id="$2"; prop="$3"; feat="${4:-}"
 wt=/tmp/confirm-wt-$id
 git -C /repo worktree remove --force "$wt" >/dev/null 2>&1; rm -rf "$wt"
 git -C /repo worktree add -q --detach "$wt" HEAD || exit 2
-export CARGO_TARGET_DIR=/tmp/confirm-target   # shared between confirmations, removed by the caller at the end
+export CARGO_TARGET_DIR=${CONFIRM_TARGET:-/tmp/confirm-target}   # removed by the caller at the end
 cd "$wt"
 cp "$src/demo.rs" tests/zz_demo.rs
 base=$(cargo test --offline $feat --test zz_demo 2>&1 | tail -5 | grep -c "test result: ok")
